@@ -105,6 +105,18 @@ def patSyncReorders (st : St) (op : Op) : Bool :=
   | .syncData s => match getSlot st s with | some h => fileSync h.path | none => false
   | _ => false
 
+/-- F-4 through the random background sync (`sync_probability`): a write / set_len that is followed by
+    the `sync_file` of its path flushes the data ops past an earlier op of the same path that stays
+    pending (e.g. the `RemoveFile` of the previous file of that name) -/
+def patCoinSyncReorders (st : St) (op : Op) : Bool :=
+  (touches st op).any fun t =>
+    let chk (p : Path) (o : POp) : Bool :=
+      reorders (isDataOpOf p) (fun k _ => match k with | .createFile _ => true | _ => false) [] (st.fs.pending ++ [o])
+    match t with
+    | .write p off len => chk p (.write p off (List.replicate len 0))
+    | .setLen p n => chk p (.setLen p n)
+    | _ => false
+
 /-- F-C10-5: rename of a directory -/
 def patRenameDir (st : St) (op : Op) : Bool :=
   match op with
@@ -155,6 +167,41 @@ def patSyncSourceOfCrossRename (st : St) (op : Op) : Bool :=
       | .rename s t => isChildOf s d != isChildOf t d
       | _ => false
   | _ => false
+
+/-- F-C07-12: the entries that survive a crash (persisted and in `synced_entries`) although one of
+    their proper ancestors does not: they stay keyed by their path and reappear inside any directory
+    created under the ancestor's name later -/
+def orphansAtCrash (fs : Fs) : List Path :=
+  let dirs := fs.dirs.filter fun d => fs.synced.contains d
+  let ents := ((fs.files.filter fun kv => fs.synced.contains kv.1).map fun kv => kv.1) ++ dirs
+  ents.filter fun p => ((List.range p.length).drop 1).any fun k => !(dirs.contains (p.take k))
+
+/-- an orphan with a pending write takes a torn-write decision of its own at the crash (its path is in
+    `synced_entries`), which no reachable file accounts for: the survival of every other pending write
+    is then decided by a different draw than the durable spec assumes -/
+def tornShift (fs : Fs) : List Path :=
+  if (orphansAtCrash fs).any fun o => fs.pending.any fun x => match x with | .write p _ _ => p == o | _ => false
+  then fs.pending.filterMap fun x => match x with | .write p _ _ => some p | _ => none
+  else []
+
+def patOrphanAtCrash (st : St) (op : Op) : Bool :=
+  op == .crash && !(orphansAtCrash st.fs).isEmpty
+
+/-- F-C07-12, second trigger: a name is brought into existence (mkdir, create_dir_all, file creation,
+    rename destination) that does not exist now but still carries durable state of a removed
+    *directory* or a durable entry (persisted directory, or the path is in `synced_entries`): what is
+    made durable for the new entry shows up under the old, still durable, one -/
+def recreatedDirs (st : St) (op : Op) : List Path :=
+  let cands : List Path := match op with
+    | .mkdir p => [p]
+    | .mkdirAll p => ((List.range (p.length + 1)).drop 1).map fun k => p.take k
+    | .rename _ q => [q]
+    | _ => (touches st op).filterMap fun t => match t with | .create p => some p | _ => none
+  cands.filter fun q => !(dirExists st.fs q) && !(fileExists st.fs q) &&
+    (st.fs.dirs.contains q || st.fs.synced.contains q)
+
+def patDirKeyedByPath (st : St) (op : Op) : Bool :=
+  patOrphanAtCrash st op || !(recreatedDirs st op).isEmpty
 
 def opSlot : Op → Option Nat
   | .writeAt s _ _ => some s | .readAt s _ _ => some s | .write s _ => some s | .read s _ => some s
@@ -216,7 +263,9 @@ def patternsAt (st : St) (sp : Spec) (op : Op) : List Taint :=
           | .rename s t => if isChildOf s d != isChildOf t d then [s, t] else []
           | _ => []
       | _ => [])
-  ++ mk 8 (patStaleHandle sp op st) (match opSlot op with
+  ++ mk 12 (patDirKeyedByPath st op) ((if op == .crash then orphansAtCrash st.fs ++ tornShift st.fs else [])
+      ++ recreatedDirs st op)
+  ++ mk 8 (patStaleHandle sp op st) (partners ++ match opSlot op with
       | some sl => match sGetSlot sp.l sl with
         | some sh => sp.l.ents.filterMap fun kv => if kv.2 == .file sh.fid then some kv.1 else none
         | none => []
